@@ -139,12 +139,14 @@ fn main() {
             }
             let per = (runs / es.len() as u64).max(1);
             let mut batches = Vec::new();
-            for e in &es {
+            for (k, e) in es.iter().enumerate() {
                 let left = max_secs - start.elapsed().as_secs_f64();
                 if left <= 0.0 {
                     break;
                 }
-                let bc = runner::BatchCfg { prop, base_seed: seed, runs: per, threads, thorough, profile: profile.clone(), max_secs: left };
+                // an even share of the remaining wall-clock budget for every composition still to run
+                let share = (left / (es.len() - k) as f64).max(0.5);
+                let bc = runner::BatchCfg { prop, base_seed: seed, runs: per, threads, thorough, profile: profile.clone(), max_secs: share };
                 let out = (e.batch)(&bc);
                 let stop = out.violation.is_some();
                 batches.push(out.to_json());
@@ -209,12 +211,13 @@ fn main() {
             }
             let per = (runs / scs.len() as u64).max(1);
             let mut batches = Vec::new();
-            for sc in &scs {
+            for (k, sc) in scs.iter().enumerate() {
                 let left = max_secs - start.elapsed().as_secs_f64();
                 if left <= 0.0 {
                     break;
                 }
-                let bc = runner::BatchCfg { prop, base_seed: seed, runs: per, threads, thorough, profile: profile.clone(), max_secs: left / 1.0 };
+                let share = (left / (scs.len() - k) as f64).max(0.5);
+                let bc = runner::BatchCfg { prop, base_seed: seed, runs: per, threads, thorough, profile: profile.clone(), max_secs: share };
                 let out = (sc.batch)(&bc);
                 let stop = out.violation.is_some();
                 batches.push(out.to_json());
